@@ -381,6 +381,61 @@ func famHistory() family {
 		}}
 }
 
+// famRestart: histories that cross a restart. Every seed: templates, save+reload, data; and every 16-bit
+// mutation of the template datagram, save+reload, then ALL data seeds (cache states reachable through the
+// cache file are reachable states too).
+func famRestart() family {
+	mk := func(th bool) ([]pitem, *table) {
+		var its []pitem
+		for _, p := range []string{"ipfix", "nf9"} {
+			for _, s := range seedList(th) {
+				its = append(its, pitem{p, s, true})
+			}
+		}
+		return its, tab(fmt.Sprint("restart", th), func() []int {
+			var sz []int
+			for _, it := range its {
+				_, b := target(it)
+				off0 := 16
+				if it.proto == "nf9" {
+					off0 = 20
+				}
+				n := (len(b) - off0) / 2
+				if n < 0 {
+					n = 0
+				}
+				sz = append(sz, 1+n*4)
+			}
+			return sz
+		})
+	}
+	vals := []uint16{0, 1, 0x8001, 0xffff}
+	return family{"restart", func(th bool) int { _, t := mk(th); return t.total() },
+		func(_ int64, th bool, idx int) *hcase {
+			its, t := mk(th)
+			i, sub := t.find(idx)
+			it := its[i]
+			sd, b := target(it)
+			m := cp(b)
+			desc := fmt.Sprintf("restart %s: templates of seed %d, save and reload the cache, then all %d data seeds", it.proto, it.s, nSeeds)
+			if sub > 0 {
+				off0 := 16
+				if it.proto == "nf9" {
+					off0 = 20
+				}
+				off, vi := off0+((sub-1)/4)*2, (sub-1)%4
+				put16(m, off, vals[vi])
+				desc = fmt.Sprintf("restart %s: template datagram of seed %d with octets %d..%d = %#x, save and reload the cache, then all data seeds", it.proto, it.s, off, off+1, vals[vi])
+			}
+			h := []dg{{sd.Addr, m}, {nil, []byte(reloadMarker)}}
+			for _, o := range seeds(it.proto) {
+				h = append(h, dg{sd.Addr, o.Data})
+			}
+			h = append(h, dg{nil, []byte(reloadMarker)}, dg{sd.Addr, sd.Data})
+			return &hcase{it.proto, h, desc}
+		}}
+}
+
 // famRandom: seeded random mutations and histories.
 func famRandom() family {
 	return family{"random", func(th bool) int {
